@@ -174,9 +174,6 @@ func c14Round(ev *vlib.Evidence, transport string, idx int) {
 	}
 	defer pair.closer()
 	callers := 1 + r.Intn(16) // per side
-	if limit > 0 && callers > 10 {
-		callers = 10 // stay below the pending limit incl. nested calls
-	}
 	perCaller := 3 + r.Intn(8)
 	maxDepth := r.Intn(4)
 	cancelShare := 0
@@ -367,10 +364,93 @@ func c14Round(ev *vlib.Evidence, transport string, idx int) {
 	}
 }
 
+// GateService answers Wait only when released and never answers Never.
+type GateService struct{ release chan struct{} }
+
+func (g *GateService) Wait(token string) (string, error) { <-g.release; return token, nil }
+func (g *GateService) Never(ctx context.Context) (string, error) {
+	select {
+	case <-g.release:
+	case <-time.After(30 * time.Second):
+	}
+	return "never", nil
+}
+
+// c14PendingLimit: with the production routing-table limit (50 entries, 10
+// discarded), 1-3 calls are waiting for slow replies while many other calls on
+// the same connection are cancelled (their late replies arrive afterwards or
+// never). The waiting calls must still get their own replies, and a cancelled
+// call returns promptly with the context's error.
+func c14PendingLimit(ev *vlib.Evidence, idx int) {
+	r := vlib.Rand("C14-pending-limit", idx)
+	c1, c2 := net.Pipe()
+	defer c1.Close()
+	defer c2.Close()
+	gate := &GateService{release: make(chan struct{})}
+	srv := &jsonrpc2.Server{}
+	if err := srv.Register("gate_", gate); err != nil {
+		panic(err)
+	}
+	limit, discard := 50, 10
+	if r.Intn(3) == 0 {
+		limit, discard = 5+r.Intn(20), 1+r.Intn(5)
+	}
+	a := &jsonrpc2.Remote{Codec: jsonrpc2.IOCodec(c1), Client: &jsonrpc2.Client{}, Server: &jsonrpc2.Server{}, PendingLimit: limit, PendingDiscard: discard}
+	b := &jsonrpc2.Remote{Codec: jsonrpc2.IOCodec(c2), Client: &jsonrpc2.Client{}, Server: srv, PendingLimit: limit, PendingDiscard: discard}
+	go a.Serve()
+	go b.Serve()
+	waiters := 1 + r.Intn(3)
+	type res struct {
+		token, got string
+		err        error
+	}
+	results := make(chan res, waiters)
+	for i := 0; i < waiters; i++ {
+		token := fmt.Sprintf("W%d-%d", idx, i)
+		go func() {
+			var out string
+			ctx, cancel := context.WithTimeout(context.Background(), 20*time.Second)
+			defer cancel()
+			err := a.Call(ctx, &out, "gate_wait", token)
+			results <- res{token, out, err}
+		}()
+	}
+	time.Sleep(20 * time.Millisecond) // let the waiters send their requests first (they are the oldest entries)
+	cancelled := limit + discard + r.Intn(30)
+	slowCancel := 0
+	for i := 0; i < cancelled; i++ {
+		ctx, cancel := context.WithTimeout(context.Background(), time.Duration(1+r.Intn(3))*time.Millisecond)
+		var out string
+		t0 := time.Now()
+		err := a.Call(ctx, &out, "gate_never")
+		cancel()
+		if err == nil || time.Since(t0) > 5*time.Second {
+			slowCancel++
+		}
+	}
+	close(gate.release)
+	desc := fmt.Sprintf("pending-limit limit=%d discard=%d waiters=%d cancelled=%d idx=%d", limit, discard, waiters, cancelled, idx)
+	ev.Case(desc, true)
+	ev.Count("pending-limit-rounds", 1)
+	ev.Count("pending-limit-cancelled-calls", int64(cancelled))
+	for i := 0; i < waiters; i++ {
+		rs := <-results
+		if rs.err != nil {
+			ev.Violate("pending-limit:waiting-call-lost-its-reply", map[string]interface{}{"case": desc, "token": rs.token, "err": rs.err.Error()})
+		} else if rs.got != rs.token {
+			ev.Violate("pending-limit:reply-of-another-call", map[string]interface{}{"case": desc, "sent": rs.token, "got": rs.got})
+		}
+	}
+	if slowCancel > 0 {
+		ev.Violate("pending-limit:cancelled-call-did-not-return-with-context-error", map[string]interface{}{"case": desc, "calls": slowCancel})
+	}
+}
+
 func TestC14(t *testing.T) {
 	ev := vlib.NewEvidence("C14", "exploration",
-		"two real jsonrpc2.Remote ends joined by (a) an in-memory network that delivers queued messages in PRNG-chosen order (replies overtake requests, bursts, replies before the caller waits) and can withhold replies, (b) IOCodec over net.Pipe, (c) IOCodec over loopback TCP, (d) the gorilla WebSocket codec over loopback; handlers also delegate to an in-process jsonrpc2.Local handing on their context; 1..16 concurrent callers per side, unique token per call, handlers echo (token, callee, identity of the context service) and call back over the same connection to depth <= 3; cancellations are issued while the reply is provably withheld, then the late reply is released; PendingLimit 0 and 50/10; non-trivial = calls succeeded with >1 caller or nesting (memnet: and at least one reordered delivery); distinct = round descriptors")
+		"(limit) with the production routing-table limit (50/10, also smaller ones) 1-3 calls wait for slow replies while limit+discard+0..29 other calls on the connection are cancelled: the waiting calls still get their own replies and cancelled calls return with the context error; two real jsonrpc2.Remote ends joined by (a) an in-memory network that delivers queued messages in PRNG-chosen order (replies overtake requests, bursts, replies before the caller waits) and can withhold replies, (b) IOCodec over net.Pipe, (c) IOCodec over loopback TCP, (d) the gorilla WebSocket codec over loopback; handlers also delegate to an in-process jsonrpc2.Local handing on their context; 1..16 concurrent callers per side, unique token per call, handlers echo (token, callee, identity of the context service) and call back over the same connection to depth <= 3; cancellations are issued while the reply is provably withheld, then the late reply is released; PendingLimit 0 and 50/10; non-trivial = calls succeeded with >1 caller or nesting (memnet: and at least one reordered delivery); distinct = round descriptors")
 	ev.Assume("stall detection is logical (no delivery and no completion for 15 s with calls outstanding), not a deadline on the round")
+	parallelCases(vlib.Scale(12, 600), 6, func(i int) { c14PendingLimit(ev, i) })
 	parallelCases(vlib.Scale(200, 60000), 12, func(i int) { c14Round(ev, "memnet", i) })
 	parallelCases(vlib.Scale(40, 6000), 8, func(i int) { c14Round(ev, "pipe", i) })
 	parallelCases(vlib.Scale(40, 6000), 8, func(i int) { c14Round(ev, "tcp", i) })
